@@ -38,6 +38,7 @@ class Prop:
         return None
     def judge(self, o, impl, model):
         if impl == 'abort': return ('fail', 'implementation process died (abort / stack overflow)')
+        if impl == 'timeout': return ('fail', 'implementation did not finish within the time limit (hang / time not proportional to the input)')
         why = self.impl_pred(o, impl)
         if why: return ('fail', why)
         if model is None: return None
